@@ -129,7 +129,7 @@ type ACL struct {
 	Rights   map[string]bool
 	Calls    int
 	// Force, when set, overrides every answer (fault injection for C14):
-	// status | empty | garbled | noaddr | emptyaddr | shortaddr | badbatch
+	// status | status503 | timeout | empty | garbled | noaddr | emptyaddr | shortaddr | badbatch
 	Force string
 }
 
@@ -170,6 +170,10 @@ func (a *ACL) invokeOne(args []string) pb.Response {
 	switch a.Force {
 	case "status":
 		return shim.Error("acl says no")
+	case "status503":
+		return pb.Response{Status: 503, Message: "service unavailable"}
+	case "timeout":
+		return shim.Error("INVOKE_CHAINCODE failed: transaction ID: x: timeout expired while executing transaction")
 	case "empty":
 		return shim.Success(nil)
 	case "garbled":
